@@ -256,25 +256,52 @@ def assemble_rules(rep, prog, marker, written, flabel):
         if all(piece(s_) for s_ in stores) and (len(masked), len(pairs)) in ((0, 2), (1, 1), (1, 0), (0, 1)):
             recognised = True
             why = "assembly incomplete: %d mask store(s) of compelled edges (1 expected), %d index store(s) of reversible edges (2 expected)" % (len(masked), len(pairs))
-    if not ok and not recognised and len(stores) == 2 and not pairs:
-        # two mask assignments: cpdag[labelled == c] = 1 ; cpdag[(labelled == r) | (labelled == r).T] = 1
+    if not ok and stores and not pairs and all(s_.aug is None for s_ in stores):
+        # mask assignments only, e.g. cpdag[lab == c] = 1 ; cpdag[lab == r] = 1 ; cpdag[(lab == r).T] = 1 (or one store with `|`): the stores are
+        # replayed, in order, on every feasible pair of labels (l_ij, l_ji) of a DAG - at most one of the two is an edge
         zl = ("ext", "numpy.zeros_like", (lab,), ())
 
         def eqc(t_):
             return t_[3][1] if isinstance(t_, tuple) and len(t_) == 4 and t_[0] == "cmp" and t_[1] == "==" and t_[2] == lab and is_const(t_[3]) else None
-        s1, s2 = sorted(stores, key=lambda s_: s_.order)
-        c1 = eqc(s1.idx)
-        r2 = None
-        i2 = s2.idx
-        if isinstance(i2, tuple) and ((i2[0] == "ext" and i2[1] == "numpy.logical_or" and len(i2[2]) == 2) or (i2[0] == "binop" and i2[1] == "|")):
-            a_, b_ = (i2[2] if i2[0] == "ext" else (i2[2], i2[3]))
-            for u_, v_ in ((a_, b_), (b_, a_)):
-                if eqc(u_) is not None and v_ in (("attr", u_, "T"), ("ext", "numpy.transpose", (u_,), ())):
-                    r2 = eqc(u_)
-        base_ok = s1.base == zl and s2.base[0] == "store" and s2.base[1] == zl
-        if c1 is not None and r2 is not None and base_ok and is_const(s1.value, 1) and is_const(s2.value, 1) and s1.aug is None and s2.aug is None:
-            com, rev, ok, recognised = c1, r2, True, True
-            why = "mask form"
+
+        def mask_sem(t_):
+            """[(label constant, transposed?)]: the entry (i, j) is selected when l_ij (or, transposed, l_ji) equals the constant"""
+            if eqc(t_) is not None:
+                return [(eqc(t_), False)]
+            if isinstance(t_, tuple) and ((t_[0] == "attr" and t_[2] == "T") or (t_[0] == "ext" and t_[1] == "numpy.transpose" and len(t_[2]) == 1 and not t_[3])):
+                inner = mask_sem(t_[1] if t_[0] == "attr" else t_[2][0])
+                return None if inner is None else [(k_, not tr_) for k_, tr_ in inner]
+            if isinstance(t_, tuple) and ((t_[0] == "ext" and t_[1] == "numpy.logical_or" and len(t_[2]) == 2) or (t_[0] == "binop" and t_[1] == "|")):
+                a_, b_ = (t_[2] if t_[0] == "ext" else (t_[2], t_[3]))
+                ma, mb = mask_sem(a_), mask_sem(b_)
+                return None if ma is None or mb is None else ma + mb
+            return None
+        seq = sorted(stores, key=lambda s_: s_.order)
+        sems, vals, chain = [], [], True
+        for k_, s_ in enumerate(seq):
+            sems.append(mask_sem(s_.idx))
+            vals.append(("const", s_.value[1]) if is_const(s_.value) and isinstance(s_.value[1], (int, float)) else ("copy",) if s_.value == ("sub", lab, s_.idx) and eqc(s_.idx) is not None else None)
+            chain = chain and (s_.base == zl if k_ == 0 else (s_.base[0] == "store" and s_.base[1] == seq[k_ - 1].base))
+        if all(m_ is not None for m_ in sems) and all(v_ is not None for v_ in vals) and chain:
+            consts = sorted({k_ for m_ in sems for k_, _ in m_})
+
+            def replay(l_ij, l_ji):
+                out = []
+                for a_, b_ in ((l_ij, l_ji), (l_ji, l_ij)):
+                    v_ = 0
+                    for m_, val in zip(sems, vals):
+                        if any((b_ if tr_ else a_) == k_ for k_, tr_ in m_):
+                            v_ = a_ if val == ("copy",) else val[1]
+                    out.append(v_)
+                return tuple(out)
+            behaviour = {k_: replay(k_, 0) for k_ in consts if k_ != 0}
+            coms = [k_ for k_, r_ in behaviour.items() if r_ == (1, 0)]
+            revs = [k_ for k_, r_ in behaviour.items() if r_ == (1, 1)]
+            recognised = True
+            ok = len(coms) == 1 and len(revs) == 1 and len(behaviour) == 2 and replay(0, 0) == (0, 0)
+            if ok:
+                com, rev = coms[0], revs[0]
+            why = "mask form: an edge labelled k gives the entries (x->y, y->x) = %s" % behaviour
     if not ok and not recognised:
         rep.unk("LABELS.assembly", fwhere(f), "the CPDAG is assembled from the labels in a form these rules do not read")
     else:
